@@ -510,6 +510,8 @@ pub struct Replay {
     pub choices: Vec<u32>,
     pub signature: String,
     pub expect: String,
+    /// name of a plain witness (regression tier), when the file records one
+    pub witness: String,
 }
 
 pub fn read_replay(path: &str) -> Option<Replay> {
@@ -520,6 +522,7 @@ pub fn read_replay(path: &str) -> Option<Replay> {
         choices: Vec::new(),
         signature: String::new(),
         expect: String::new(),
+        witness: String::new(),
     };
     for line in s.lines() {
         if let Some(v) = line.strip_prefix("property=") {
@@ -528,6 +531,8 @@ pub fn read_replay(path: &str) -> Option<Replay> {
             r.direct = v.trim() == "direct";
         } else if let Some(v) = line.strip_prefix("signature=") {
             r.signature = v.to_string();
+        } else if let Some(v) = line.strip_prefix("witness=") {
+            r.witness = v.trim().to_string();
         } else if let Some(v) = line.strip_prefix("expect=") {
             r.expect = v.trim().to_string();
         } else if let Some(v) = line.strip_prefix("choices=") {
